@@ -33,7 +33,14 @@ partial def buildRecipe (j : Json) : Except String (Except PyErr Node) := do
     pure (.ok (mkGraph children edges md))
   else
     let kwargs ← kvsOfJson (← j.getObjVal? "kwargs")
-    pure (construct kind kwargs)
+    match j.getObjVal? "types" with
+    | .ok tj =>
+      let a ← tj.getArr?
+      if a.size != 2 then throw "bad types"
+      let i ← valOfJson a[0]!
+      let o ← valOfJson a[1]!
+      pure ((construct kind kwargs).map fun n => n.setTypes i o)
+    | .error _ => pure (construct kind kwargs)
 
 def errOpt : Option PyErr → Json
   | none => .null
